@@ -10,6 +10,7 @@ import (
 	"runtime"
 	"runtime/debug"
 	"strings"
+	"sync/atomic"
 	"time"
 
 	"github.com/gethiox/HIDI/internal/pkg/input"
@@ -36,6 +37,8 @@ type ledBatch struct {
 	// AsyncMidi: MIDI-input messages are handed over without the sentinel that waits until they are processed,
 	// so that nothing the harness does orders the MIDI-input goroutine before the next key event (race detection)
 	AsyncMidi bool `json:"async_midi"`
+	// Server: behaviour of the fake OpenRGB server ("" | "nocontroller" | "other"), see fakeORGB.mode
+	Server string `json:"server"`
 }
 
 type ledStep struct {
@@ -49,6 +52,7 @@ type ledOut struct {
 	Frame     [][3]int `json:"frame"`
 	NFrames   int      `json:"nframes"`
 	ReturnMs  int64    `json:"return_ms"`
+	ReqAfter  int64    `json:"req_after"` // requests the OpenRGB server received from the end of the event stream on
 	Leftover  []string `json:"leftover,omitempty"`
 	LedActive bool     `json:"led_active"`
 	NoWait    bool     `json:"nowait"`
@@ -162,6 +166,7 @@ func cmdLed(args []string) error {
 			if err != nil {
 				return err
 			}
+			srv.mode = b.Server
 			r := &devRun{in: make(chan *input.InputEvent), out: make(chan midi.Event, 8192), sigs: make(chan os.Signal, 64),
 				done: make(chan string, 1)}
 			midiIn := make(chan midi.Event)
@@ -219,12 +224,14 @@ func cmdLed(args []string) error {
 					res.St = r.state()
 				case "disconnect":
 					t0 := time.Now()
+					q0 := atomic.LoadInt64(&srv.reqs)
 					so, _ := r.step(st.devInput)
 					res.stepOut = so
 					res.ReturnMs = time.Since(t0).Milliseconds()
 					alive = false
 					time.Sleep(30 * time.Millisecond) // the final (all red) frame is written just before the LED goroutine ends
 					res.Leftover = deviceGoroutines()
+					res.ReqAfter = atomic.LoadInt64(&srv.reqs) - q0
 				default:
 					var ok bool
 					res.stepOut, ok = r.step(st.devInput)
